@@ -251,6 +251,7 @@ func checkC28(w *World, r *Run) {
 	checkC28Payload(w, r, rulePayload)
 	checkC28Middleware(w, r, ruleMw)
 	checkC28Headers(w, r, ruleHeaders)
+	checkC28PayloadHash(w, r)
 	r.NotCovered("injectivity of the canonicalisation (two different requests with one canonical form); HMAC/ECDSA arithmetic; the chunk-signature chain of streaming uploads (C30)")
 	_ = types.Universe
 	_ = strings.ToLower
